@@ -22,6 +22,28 @@ CLAIMS = {
         engine="E1"),
 }
 
+CLAIMS["C01"] = dict(
+    category="other",
+    text="Static decision of one necessary clause: the closed-path contribution table (IsContributingClosed) is extracted by abstract "
+         "interpretation of its AST over a finite, verified-uniform partition of (fill rule, clip type, path type, wind_cnt, wind_cnt2) and "
+         "equals the set-algebra definition on every reachable cell (1300 cells per configuration, exhaustive). A wrong reachable cell is a wrong "
+         "region for some input in general position; the converse (the behaviour of C01) is NOT decided.",
+    note="Assumes the code's stated invariants for wind_cnt / wind_cnt2. Winding bookkeeping, AEL order, intersections, joins, output assembly "
+         "and tolerances are outside the clause.",
+    technique="static analysis: abstract interpretation of the decision function's AST over a finite partition, compared with a definitional oracle",
+    design="§3 E3, §4 C01", engine="E3")
+CLAIMS["C11"] = dict(
+    category="other",
+    text="Static error-discipline rules over every public entry in builds with and without exceptions: validate-before-use of every precision "
+         "parameter (path rule, interprocedural through validating callees), exact validator tables, range test before every double->int64 scaling "
+         "of caller data, exact C-boundary rejection sets evaluated over the whole uint8_t / precision domain, NoClip early return, and (no-exceptions "
+         "build) error codes consumed before a result is produced and every DoError paired with an error-code update. Genuine defects found are "
+         "listed in known_findings.json (D8-D10) or repaired by fix: commits (D7, D13).",
+    note="Does not decide that Execute returns true for all geometry (AddLocalMaxPoly mismatch reachability). Parameters are recognised by name "
+         "(precision, decimal_prec, decimalPlaces) and int type.",
+    technique="static analysis: structured-CFG path rules + AST interpretation of validation conditions (Engler-style error discipline)",
+    design="§3 E5, §4 C11", engine="E5")
+
 NOT_APPLICABLE = {
     "C02": "exactness on degenerate rectilinear input is a runtime interplay of horizontal joins; no structural clause is a necessary condition (DESIGN §4)",
     "C06": "every clause is a distance/region statement over all polygons and deltas; nothing is visible in the shape of the code (DESIGN §4)",
@@ -72,6 +94,10 @@ def main():
              "kind_free_text": "fact extraction: clang -ast-dump=json and -O0 LLVM IR of a unity TU rebuilt from /repo on every run; Python query layers"},
             {"name": "E1", "path": "/verif/vlib/engines/e1_globals.py", "serves_properties": ["C14", "C12"],
              "kind_free_text": "global state, shared-data immutability, thread-safe externals, determinism lint"},
+            {"name": "E3", "path": "/verif/vlib/engines/e3_tables.py", "serves_properties": ["C01"],
+             "kind_free_text": "finite decision tables by abstract interpretation of the AST (vlib/evalx.py) against definitional oracles"},
+            {"name": "E5", "path": "/verif/vlib/engines/e5_errors.py", "serves_properties": ["C11"],
+             "kind_free_text": "error-discipline path rules on the structured CFG (vlib/flow.py)"},
         ],
         "checks": checks,
         "notes": "Technique family: static analysis only. Exit 2 = analysis broken (anchor vanished / floor / control), never pass or violation.",
